@@ -45,6 +45,9 @@ func init() {
 	sh("C12", 90, 1200, runner.Part{Scenario: "simhost", Params: p("pstop", "4", "timeout", "30"), Share: 2},
 		runner.Part{Scenario: "simhost", Share: 2},
 		runner.Part{Scenario: "l0/pending", Share: 1})
+	sh("C16", 90, 1200, runner.Part{Scenario: "simhost", Params: p("tanlog", "2048", "snapshot", "5", "overhead", "0", "fsyield", "300", "pcrash", "10", "ops", "40"), Share: 2},
+		runner.Part{Scenario: "simhost", Params: p("snapshot", "5", "fsyield", "100", "pcrash", "10", "psnapreq", "10", "sm", "3"), Share: 1},
+		runner.Part{Scenario: "simhost", Params: p("snapshot", "12", "fsyield", "300", "pcrash", "8", "torn", "1"), Share: 1})
 	sh("C17", 90, 1200, runner.Part{Scenario: "simhost", Share: 2},
 		runner.Part{Scenario: "simhost", Params: p("pmember", "10", "ptransfer", "8", "ppartition", "8"), Share: 1})
 	sh("C18", 90, 1200, runner.Part{Scenario: "simhost", Params: p("pmember", "20", "hosts", "5"), Share: 1},
